@@ -188,7 +188,7 @@ def run_concrete(c, inst, values=None, rng=None):
         tb = traceback.format_exc(limit=6)
         return "exception", f"{type(ex).__name__}: {ex}\n{tb}", K.used
     if K.violations:
-        return "violated", ",".join(K.violations), K.used
+        return "violated", "|".join(K.violations), K.used
     if K.ensured == 0:
         return "skip", None, K.used
     return "held", None, K.used
@@ -256,6 +256,36 @@ def prove_instance(c, inst, tier="quick", seed=0, lib_factory=Lib):
                 vals = model_values(ob.model, inputs)
                 rec["model"] = {k: str(v) for k, v in vals.items()}
                 st, detail, used = run_concrete(c, inst, vals)
+                def own(st, detail):
+                    if st == "violated" and ob.kind == "post" and ob.name not in (detail or "").split("|"):
+                        # another postcondition fails natively on this input, but not the one the solver refuted
+                        return "held", f"(other postconditions failing on this input: {detail})"
+                    return st, detail
+                st, detail = own(st, detail)
+                if st in ("held", "skip"):
+                    # degenerate model (0, 1, equal values ...): ask for a less special counterexample
+                    for attempt in range(3):
+                        extra = []
+                        reals = [z3.Real(n) for n, d in inputs.items() if d[0] == "real"]
+                        ints = [z3.Int(n) for n, d in inputs.items() if d[0] == "int"]
+                        for x in reals:
+                            extra += [x != 0, x != 1, x != -1] + ([x > 1] if attempt == 1 else []) + ([x < -1] if attempt == 2 else [])
+                        extra += [z3.Distinct(*reals)] if len(reals) > 1 else []
+                        for x in ints:
+                            extra += [x != 0] if attempt else []
+                        fs = list(ob.pc) + [z3.Not(ob.goal)] + extra
+                        if AX.uses_real_functions(fs):
+                            fs = fs + AX.ground_axioms(fs)
+                        r2, m2, _, _ = _solve_z3(fs, 5000, seed + attempt)
+                        if r2 != "sat":
+                            continue
+                        vals2 = model_values(m2, inputs)
+                        st2, detail2, used2 = run_concrete(c, inst, vals2)
+                        st2, detail2 = own(st2, detail2)
+                        if st2 in ("violated", "exception"):
+                            st, detail, used, vals = st2, detail2, used2, vals2
+                            rec["model"] = {k: str(v) for k, v in vals.items()}
+                            break
                 rec["replay"] = st
                 rec["replay_detail"] = detail
                 rec["replay_inputs"] = {k: str(v) for k, v in used.items()}
